@@ -3,11 +3,11 @@ import Pyrealb.Gen.ElisionTables
 /-! # Model of `ConstituentFr.doElision` / `ConstituentEn.doElision` on token lists
 
 Mirrors `src/pyrealb/ConstituentFr.py:46-132` and `src/pyrealb/ConstituentEn.py:37-106` branch for branch,
-including what looks wrong (case-insensitive regex + case-sensitive dict, the `i += 2` after every rewrite,
-the look-ahead on the *raw* realization, the `is not None` test on the wrong index).
+including what looks wrong (the look-ahead on the *raw* realization, the case-sensitive contraction table, the `is not None` test on the wrong index).
 
 * a token is what `doElision` reads of a `Terminal`: its realization (`None` possible), `constType`, the
-  `lier` property, `getProp("n") == "s"`, and the answer of the lexicon to the aspirated-h question asked by
+  `lier` property, `getProp("n") == "s"`, its language (`isFr()`; since /repo commit ab31145 only words of the
+  list's own language are rewritten), and the answer of the lexicon to the aspirated-h question asked by
   `isElidableFr` (`hW`: asked with the first word `w2`; `hR`: asked with the raw realization in the look-ahead;
   they coincide whenever the lemma is a `str`);
 * the regular expressions are total functions on `List Char`; `\w`, `\s` and lower-casing are ASCII plus the
@@ -16,6 +16,13 @@ the look-ahead on the *raw* realization, the `is not None` test on the wrong ind
 -/
 namespace Pyrealb.Elision
 open Pyrealb Pyrealb.Gen.Elision
+
+instance exceptDecEq {α : Type} [DecidableEq α] : DecidableEq (Except Crash α) := fun a b =>
+  match a, b with
+  | .ok x, .ok y => if h : x = y then isTrue (by rw [h]) else isFalse (by intro e; cases e; exact h rfl)
+  | .error x, .error y => if h : x = y then isTrue (by rw [h]) else isFalse (by intro e; cases e; exact h rfl)
+  | .ok _, .error _ => isFalse (by intro e; cases e)
+  | .error _, .ok _ => isFalse (by intro e; cases e)
 
 inductive Lang where
   | fr | en
@@ -101,14 +108,38 @@ structure Tok where
   sg : Bool
   hW : HFlag
   hR : HFlag
+  /-- `isFr()` (`isEn()` is its negation: two languages) -/
+  fr : Bool
   deriving DecidableEq, Repr
 
 def Tok.setReal (t : Tok) (x : Str) : Tok := { t with real := some x }
+
+structure View where
+  pre : Str
+  w : Str
+  rest : Str
+  deriving DecidableEq, Repr
+
+/-- the first word of a token, when it has one -/
+def view (ℓ : Lang) (t : Tok) : Option View :=
+  match t.real with
+  | none => none
+  | some x =>
+    let m := sepWord ℓ x
+    match m.word with
+    | none => none
+    | some w => some ⟨m.pre, w, m.rest⟩
 
 /-! ## French -/
 
 /-- `re.match(r"^[aeiouyàâéèêëîïôöùü]", x, re.I)` on the first character -/
 def isVowelFr (c : Char) : Bool := vowelsFr.contains (lowerC c)
+
+/-- the lexicon part of `isElidableFr` for an h-initial word -/
+def hAnswer : HFlag → Except Crash Bool
+  | .mute => .ok true
+  | .aspire => .ok false
+  | .crash => .error .attributeError
 
 /-- `isElidableFr(realization, lemma, pos)` with the lexicon's answer abstracted to `h` -/
 def elidableNext (x : Str) (h : HFlag) : Except Crash Bool :=
@@ -116,12 +147,13 @@ def elidableNext (x : Str) (h : HFlag) : Except Crash Bool :=
   | [] => .ok false
   | c :: _ =>
     if isVowelFr c then .ok true
-    else if lowerC c == 'h' then
-      match h with
-      | .mute => .ok true
-      | .aspire => .ok false
-      | .crash => .error .attributeError
+    else if lowerC c == 'h' then hAnswer h
     else .ok false
+
+/-- `true` iff the call returned `True` -/
+def isOkTrue : Except Crash Bool → Bool
+  | .ok b => b
+  | .error _ => false
 
 /-- `elidableWordFrRE.match(w)` -/
 def isElidableWord (w : Str) : Bool := elidableFr.contains (lower w)
@@ -137,58 +169,93 @@ def euphExc (w : Str) : Bool := euphExceptionsFr.contains w
 /-- `contractionFrTable.get(w1 + "+" + w2)` -/
 def contrFr (w1 w2 : Str) : Option Str := lookup (w1 ++ '+' :: w2) contractionFrTable
 
-/-- `m[1] + w[:-1] + "'" + m[3]` -/
-def elideReal (m : Sep) (w : Str) : Str := m.pre ++ w.dropLast ++ '\'' :: m.rest
+/-- `m[1] + new + m[3]` -/
+def View.rebuild (v : View) (new : Str) : Str := v.pre ++ new ++ v.rest
 
-/-- What one iteration of the `while` does with the pair at `i`, `i+1` (`t3` is the token at `i+2`):
-    `none`: nothing, `i += 1`; `some (a, b)`: the two tokens become `a`, `b` and `i += 2`. -/
-def stepFr (t1 t2 : Tok) (t3 : Option Tok) : Except Crash (Option (Tok × Tok)) :=
+/-- `str.isupper()` of one character on the alphabet -/
+def isUpperPy (c : Char) : Bool := c.isUpper || (lowerPairs.lookup c).isSome
+
+/-- `str.upper` of one character on the alphabet -/
+def upperC (c : Char) : Char :=
+  if c.isLower then c.toUpper else
+    match lowerPairs.find? (fun p => p.2 == c) with
+    | some p => p.1
+    | none => c
+
+/-- `str.capitalize()` -/
+def capitalizePy : Str → Str
+  | [] => []
+  | c :: r => upperC c :: lower r
+
+/-- `w1[0].isupper()` -/
+def headUpper : Str → Bool
+  | [] => false
+  | c :: _ => isUpperPy c
+
+/-- `euph = euphonieFrTable[w1.lower()]; if w1[0].isupper(): euph = euph.capitalize()` (commit 5847d2f) -/
+def euphForm (w1 : Str) : Option Str :=
+  match lookup (lower w1) euphonieFrTable with
+  | none => none
+  | some v => some (if headUpper w1 then capitalizePy v else v)
+
+/-- what one iteration does: `keep`: nothing, `i += 1`; `one a`: token `i` becomes `a`, `i += 1` (elision, euphony:
+    since commit 534aec1 the next pair is no longer skipped); `two a b`: both tokens rewritten, `i += 2`
+    (contraction, look-ahead elision of the article) -/
+inductive ActFr where
+  | keep
+  | one (a : Tok)
+  | two (a b : Tok)
+
+/-- the body of the loop once both first words are known (`v1`, `v2`) and `isElidableFr(w2, …)` returned `e2` -/
+def stepFrCore (t1 t2 : Tok) (t3 : Option Tok) (v1 v2 : View) (e2 : Bool) : Except Crash ActFr :=
+  let nw := noWords v1.rest
+  if e2 && isElidableWord v1.w && nw then
+    .ok (.one (t1.setReal (v1.rebuild (v1.w.dropLast ++ ['\'']))))
+  else if e2 && isEuphonic v1.w && nw && t1.sg then
+    if ceMatch v1.w && ceVerb v2.w then
+      .ok (.one (t1.setReal (v1.rebuild (v1.w.dropLast ++ ['\'']))))
+    else if !euphExc v2.w then
+      match euphForm v1.w with
+      | none => .error .keyError     -- `euphonieFrTable[w1.lower()]` (unreachable while the table has every word of the regex)
+      | some v => .ok (.one (t1.setReal (v1.rebuild v)))
+    else .ok .keep                   -- elisionFound = True: no contraction is tried
+  else
+    match (if nw && t2.fr then contrFr v1.w v2.w else none) with     -- `… and cList[i + 1].isFr()`
+    | none => .ok .keep
+    | some c =>
+      let contract : ActFr :=
+        .two (t1.setReal (v1.rebuild c)) (t2.setReal (v2.pre ++ strip v2.rest))
+      if isElidableWord v2.w && t2.ct != ['D', 'T'] then
+        match t3 with
+        | none => .ok contract
+        | some t3 =>
+          match t3.real with
+          | none => .error .typeError
+          | some x3 =>
+            match elidableNext x3 t3.hR with     -- the RAW realization of the third token
+            | .error e => .error e
+            | .ok true => .ok (.two t1 (t2.setReal (v2.rebuild (v2.w.dropLast ++ ['\'']))))
+            | .ok false => .ok contract
+      else .ok contract
+
+/-- What one iteration of the `while` does with the pair at `i`, `i+1` (`t3` is the token at `i+2`). -/
+def stepFr (t1 t2 : Tok) (t3 : Option Tok) : Except Crash ActFr :=
+  if !t1.fr then .ok .keep else        -- `if not cList[i].isFr(): i += 1; continue`
   match t1.real with
-  | none => .ok none
-  | some x1 =>
-    let m1 := sepWord .fr x1
-    match m1.word with
-    | none => .ok none
-    | some w1 =>
+  | none => .ok .keep                  -- m1 = None
+  | some _ =>
+    match view .fr t1 with
+    | none => .ok .keep                -- m1.group(2) is None
+    | some v1 =>
       match t2.real with
       | none => .error .typeError      -- the guard tests `cList[i].realization`, not `cList[i+1]`
-      | some x2 =>
-        let m2 := sepWord .fr x2
-        match m2.word with
-        | none => .ok none
-        | some w2 =>
-          let nw := noWords m1.rest
-          match elidableNext w2 t2.hW with
+      | some _ =>
+        match view .fr t2 with
+        | none => .ok .keep
+        | some v2 =>
+          match elidableNext v2.w t2.hW with
           | .error e => .error e
-          | .ok e2 =>
-            if e2 && isElidableWord w1 && nw then
-              .ok (some (t1.setReal (elideReal m1 w1), t2))
-            else if e2 && isEuphonic w1 && nw && t1.sg then
-              if ceMatch w1 && ceVerb w2 then
-                .ok (some (t1.setReal (elideReal m1 w1), t2))
-              else if !euphExc w2 then
-                match lookup w1 euphonieFrTable with
-                | none => .error .keyError     -- the regex is case-insensitive, the dict is not
-                | some v => .ok (some (t1.setReal (m1.pre ++ v ++ m1.rest), t2))
-              else .ok (some (t1, t2))         -- elisionFound = True all the same
-            else
-              match (if nw then contrFr w1 w2 else none) with
-              | none => .ok none
-              | some c =>
-                let contract : Option (Tok × Tok) :=
-                  some (t1.setReal (m1.pre ++ c ++ m1.rest), t2.setReal (m2.pre ++ strip m2.rest))
-                if isElidableWord w2 && t2.ct != ['D', 'T'] then
-                  match t3 with
-                  | none => .ok contract
-                  | some t3 =>
-                    match t3.real with
-                    | none => .error .typeError
-                    | some x3 =>
-                      match elidableNext x3 t3.hR with
-                      | .error e => .error e
-                      | .ok true => .ok (some (t1, t2.setReal (elideReal m2 w2)))
-                      | .ok false => .ok contract
-                else .ok contract
+          | .ok e2 => stepFrCore t1 t2 t3 v1 v2 e2
 
 /-- the `while i < last` loop from index `i` on; `pl` = `i > 0 and cList[i-1].getProp("lier")` -/
 def goFr : Bool → List Tok → Except Crash (List Tok)
@@ -202,11 +269,15 @@ def goFr : Bool → List Tok → Except Crash (List Tok)
     else
       match stepFr t1 t2 rest.head? with
       | .error e => .error e
-      | .ok none =>
+      | .ok .keep =>
         match goFr t1.lier (t2 :: rest) with
         | .error e => .error e
         | .ok l => .ok (t1 :: l)
-      | .ok (some (a, b)) =>
+      | .ok (.one a) =>
+        match goFr t1.lier (t2 :: rest) with
+        | .error e => .error e
+        | .ok l => .ok (a :: l)
+      | .ok (.two a b) =>
         match goFr t2.lier rest with
         | .error e => .error e
         | .ok l => .ok (a :: b :: l)
@@ -237,32 +308,35 @@ inductive ActEn where
   | one (a : Tok)            -- token i rewritten, i += 1   ("cannot")
   | two (a b : Tok)          -- tokens i, i+1 rewritten, i += 2
 
+/-- `(w1 == "a" or w1 == "A") and cList[i].isA("D") and cList[i].isEn()` -/
+def isArtA (t : Tok) (w : Str) : Bool := (w == ['a'] || w == ['A']) && t.ct == ['D'] && !t.fr
+
+def stepEnCore (contr : Bool) (t1 t2 : Tok) (v1 v2 : View) : ActEn :=
+  if isArtA t1 v1.w then
+    if anRule v2.w then .two (t1.setReal (v1.rebuild (v1.w ++ ['n']))) t2
+    else .keep
+  else if contr then
+    if v1.w == ['c', 'a', 'n', 'n', 'o', 't'] then
+      .one (t1.setReal (v1.rebuild ['c', 'a', 'n', '\'', 't']))
+    else
+      match contrEn v1.w v2.w with
+      | none => .keep
+      | some c => .two (t1.setReal (v1.rebuild c)) (t2.setReal (v2.pre ++ strip v2.rest))
+  else .keep
+
 def stepEn (contr : Bool) (t1 t2 : Tok) : Except Crash ActEn :=
   match t1.real with
-  | none => .error .typeError
-  | some x1 =>
-    let m1 := sepWord .en x1
-    match m1.word with
+  | none => .error .typeError          -- no `is not None` guard in English
+  | some _ =>
+    match view .en t1 with
     | none => .ok .keep
-    | some w1 =>
+    | some v1 =>
       match t2.real with
       | none => .error .typeError
-      | some x2 =>
-        let m2 := sepWord .en x2
-        match m2.word with
+      | some _ =>
+        match view .en t2 with
         | none => .ok .keep
-        | some w2 =>
-          if (w1 == ['a'] || w1 == ['A']) && t1.ct == ['D'] then
-            if anRule w2 then .ok (.two (t1.setReal (m1.pre ++ w1 ++ 'n' :: m1.rest)) t2)
-            else .ok .keep
-          else if contr then
-            if w1 == ['c', 'a', 'n', 'n', 'o', 't'] then
-              .ok (.one (t1.setReal (m1.pre ++ ['c', 'a', 'n', '\'', 't'] ++ m1.rest)))
-            else
-              match contrEn w1 w2 with
-              | none => .ok .keep
-              | some c => .ok (.two (t1.setReal (m1.pre ++ c ++ m1.rest)) (t2.setReal (m2.pre ++ strip m2.rest)))
-          else .ok .keep
+        | some v2 => .ok (stepEnCore contr t1 t2 v1 v2)
 
 def goEn (contr : Bool) : List Tok → Except Crash (List Tok)
   | [] => .ok []
@@ -295,27 +369,8 @@ def doElision (ℓ : Lang) (contr : Bool) (toks : List Tok) : Except Crash (List
 
 Declarative: clauses on adjacent pairs, independent of the control flow of `doElision`. -/
 
-structure View where
-  pre : Str
-  w : Str
-  rest : Str
-  deriving DecidableEq, Repr
-
-/-- the first word of a token, when it has one -/
-def view (ℓ : Lang) (t : Tok) : Option View :=
-  match t.real with
-  | none => none
-  | some x =>
-    let m := sepWord ℓ x
-    match m.word with
-    | none => none
-    | some w => some ⟨m.pre, w, m.rest⟩
-
 /-- “begins with a vowel or a mute h”, the lexicon's `h` flag read exactly as `isElidableFr` reads it -/
-def vowelOrMuteH (w : Str) (t : Tok) : Bool :=
-  match elidableNext w t.hW with
-  | .ok b => b
-  | .error _ => false
+def vowelOrMuteH (w : Str) (t : Tok) : Bool := isOkTrue (elidableNext w t.hW)
 
 /-- an elidable word with its last letter replaced by an apostrophe: l', j', m', t', s', d', n', qu', … -/
 def isElidedForm (w : Str) : Bool := elidableFr.any (fun b => lower w == b.dropLast ++ ['\''])
@@ -327,30 +382,41 @@ def prevocalicOnly : List Str :=
 
 def isPrevocalicOnly (w : Str) : Bool := prevocalicOnly.contains (lower w)
 
-/-- French clauses for two adjacent tokens whose first words are adjacent in the text -/
+/-- the property's own constants (not lifted from the code): `à`, `de` ; `le`, `les` -/
+def aDe : List Str := [['à'], ['d', 'e']]
+def leLes : List Str := [['l', 'e'], ['l', 'e', 's']]
+
+/-- the French clauses, on the two adjacent words: `w1` (a French word, of a token whose number is singular iff
+    `sg`), `w2`, `V` = `w2` begins with a vowel or a mute h, `isD` = the second token is a determiner, `fr2` = the
+    second token is French too (a contraction merges two French words) -/
+def clausesFr (w1 : Str) (sg : Bool) (w2 : Str) (V : Bool) (isD : Bool) (fr2 : Bool) : Bool :=
+  -- F1: no elidable word stands unelided before a vowel or mute h
+  !(isElidableWord w1 && V)
+  -- F2: an elided form only before a vowel or mute h
+  && (!isElidedForm w1 || V)
+  -- F3: no pair of the code's contraction table survives
+  && (!fr2 || (contrFr w1 w2).isNone)
+  -- F3': à/de never stand before the article le/les (whatever the capitals)
+  && !(aDe.contains (lower w1) && leLes.contains (lower w2) && isD && fr2)
+  -- F4: ma/ta/sa/ce/beau/… singular before a vowel or mute h (other than et/ou/où/aujourd'hui) does not survive
+  && !(isEuphonic w1 && sg && V && !euphExc w2)
+  -- F5: cet/bel/fol/mol/nouvel/vieil only before a vowel or mute h other than et/ou/où/aujourd'hui
+  && (!isPrevocalicOnly w1 || (V && !euphExc w2))
+
+/-- French: two adjacent tokens whose first words are adjacent in the text (nothing but punctuation follows `w1`
+    in its token), the first one a French word, satisfy the clauses -/
 def pairOKFr (t1 t2 : Tok) : Bool :=
   match view .fr t1, view .fr t2 with
   | some v1, some v2 =>
-    !noWords v1.rest ||
-    (let V := vowelOrMuteH v2.w t2
-     -- F1: no elidable word stands unelided before a vowel or mute h
-     !(isElidableWord v1.w && V)
-     -- F2: an elided form only before a vowel or mute h
-     && (!isElidedForm v1.w || V)
-     -- F3: no pair of the contraction table survives (à/de + le/les …)
-     && (contrFr v1.w v2.w).isNone
-     -- F4: ma/ta/sa/ce/beau/… singular before a vowel or mute h (other than et/ou/où/aujourd'hui) does not survive
-     && !(isEuphonic v1.w && t1.sg && V && !euphExc v2.w)
-     -- F5: cet/bel/fol/mol/nouvel/vieil only before a vowel or mute h other than et/ou/où/aujourd'hui
-     && (!isPrevocalicOnly v1.w || (V && !euphExc v2.w)))
+    !t1.fr || !noWords v1.rest || clausesFr v1.w t1.sg v2.w (vowelOrMuteH v2.w t2) (t2.ct == ['D']) t2.fr
   | _, _ => true
 
-/-- English clause: the determiner is `an` exactly before the words selected by `anRule` -/
+/-- English clause: the English determiner is `an` exactly before the words selected by `anRule` -/
 def pairOKEn (t1 t2 : Tok) : Bool :=
   match view .en t1, view .en t2 with
   | some v1, some v2 =>
-    (!(t1.ct == ['D'] && (v1.w == ['a'] || v1.w == ['A'])) || !anRule v2.w)
-    && (!(t1.ct == ['D'] && (v1.w == ['a', 'n'] || v1.w == ['A', 'n'])) || anRule v2.w)
+    (!(t1.ct == ['D'] && !t1.fr && (v1.w == ['a'] || v1.w == ['A'])) || !anRule v2.w)
+    && (!(t1.ct == ['D'] && !t1.fr && (v1.w == ['a', 'n'] || v1.w == ['A', 'n'])) || anRule v2.w)
   | _, _ => true
 
 def pairOK : Lang → Tok → Tok → Bool
